@@ -8,22 +8,51 @@ CORE = "frost_core::"
 RF = CORE + "keys::refresh::"
 
 
+def strip_iter(t):
+    """peel iteration / copying wrappers: slice::iter(x), into_iter(x), cloned/copied, clone -> x"""
+    while isinstance(t, tuple) and t:
+        if t[0] == "iter":
+            t = t[1]
+        elif t[0] == "call" and t[1].rsplit("::", 1)[-1] in ("iter", "into_iter", "to_vec") and len(t[2]) == 1:
+            t = t[2][0]
+        else:
+            break
+    return t
+
+
 def identity_prefixed(received):
-    """collect(chain(iter(vec![CoefficientCommitment{identity}]), received))"""
+    """a commitment vector that is [identity] ++ received: collect(chain(<one identity commitment>, received)) or the
+    received vector with insert(0, identity)"""
+    def one_identity(first):
+        f = strip_iter(first)
+        elems = None
+        if f[0] == "vec" and len(f[1]) == 1:
+            elems = f[1][0]
+        elif is_call(f, name="once") and len(f[2]) == 1:
+            elems = f[2][0]
+        elif f[0] == "agg" and f[1] == "array" and len(f[4]) == 1:
+            elems = f[4][0][1]
+        return elems is not None and mentions(elems, lambda s: is_call(s, name="identity")) and not mentions(elems, lambda s: s[0] == "arg")
+
     def m(t):
         t = unwrap_newtypes(t) if t[0] == "agg" and t[2] and t[2].endswith("VerifiableSecretSharingCommitment") else t
         if is_call(t, name="new") and t[2]:
             t = t[2][0]
+        if t[0] == "mut" and t[2] and all(len(o) > 4 and o[4][:1] == ("0",) for o in t[2]):
+            # updates of the newtype's inner vector
+            t = ("mut", ("field", t[1], None, "0"), tuple(("op", o[1], o[2], o[3], o[4][1:]) for o in t[2]))
+        if t[0] == "mut":
+            # in-place form: received.insert(0, identity)
+            ins = [o for o in t[2] if o[1] == "insert"]
+            return (len(ins) >= 1 and const(0)(ins[0][2][0]) and mentions(ins[0][2][1], lambda s: is_call(s, name="identity")) and
+                    not mentions(ins[0][2][1], lambda s: s[0] == "arg") and received(strip_iter(t[1])))
         if not is_call(t, name="collect"):
             return False
         c = t[2][0]
         if not is_call(c, name="chain"):
             return False
         first, second = c[2][0], c[2][1]
-        idv = (first[0] == "iter" and first[1][0] == "vec" and len(first[1][1]) == 1 and
-               mentions(first[1][1][0], lambda s: is_call(s, name="identity")) and
-               not mentions(first[1][1][0], lambda s: s[0] == "arg"))
-        return idv and received(second)
+        return one_identity(first) and received(strip_iter(second))
     return m
 
 
